@@ -109,7 +109,7 @@ func genC20(t *rapid.T) C20Case {
 			c.Edits = append(c.Edits, Edit{Path: p, Op: "setint", Val: rapid.SampledFrom([]string{"0", "1", "65535", "65536", "-1"}).Draw(t, "port")})
 		case 6:
 			l := rapid.SampledFrom([]string{"nchf-convergedcharging", "nchf-offlineonlycharging", "nchf-spendinglimitcontrol", "nchf-convergedcharging,nchf-convergedcharging",
-				"nchf-convergedcharging,nchf-spendinglimitcontrol,nchf-offlineonlycharging", "nchf-unknown", "nchf-convergedcharging,bogus", "", "nchf-spendinglimitcontrol,nchf-spendinglimitcontrol,nchf-offlineonlycharging", "NCHF-CONVERGEDCHARGING"}).Draw(t, "services")
+				"nchf-convergedcharging,nchf-spendinglimitcontrol,nchf-offlineonlycharging", "nchf-convergedcharging,nchf-offlineonlycharging,nchf-convergedcharging", "nchf-offlineonlycharging,nchf-spendinglimitcontrol,nchf-convergedcharging,nchf-spendinglimitcontrol", "nchf-unknown", "nchf-convergedcharging,bogus", "", "nchf-spendinglimitcontrol,nchf-spendinglimitcontrol,nchf-offlineonlycharging", "NCHF-CONVERGEDCHARGING"}).Draw(t, "services")
 			c.Edits = append(c.Edits, Edit{Path: "configuration.serviceNameList", Op: "list", Val: l})
 		case 7:
 			c.Edits = append(c.Edits, Edit{Path: "configuration.cgf.enable", Op: "setbool", Val: rapid.SampledFrom([]string{"true", "false"}).Draw(t, "cgfEnable")})
@@ -265,7 +265,7 @@ func judgeC20(c C20Case) *h.Verdict {
 	crashed := strings.Contains(o, "panic:") || strings.Contains(o, "nil pointer") || strings.Contains(o, "fatal error:") || strings.Contains(o, "SIGSEGV")
 	if err != nil || crashed {
 		where := "start"
-		for _, w := range []string{"context.Init", "NewApp", "rf.OpenServer", "abmf.OpenServer", "cgf.OpenServer", "https-getters", "charging-request"} {
+		for _, w := range []string{"context.Init", "NewApp", "rf.OpenServer", "abmf.OpenServer", "cgf.OpenServer", "https-getters", "sbi-listener", "charging-request"} {
 			if strings.Contains(o, "STAGE "+w) {
 				where = w
 			}
@@ -316,6 +316,10 @@ func child(file string) int {
 		_ = cfg.GetCertPemPath()
 		_ = cfg.GetCertKeyPath()
 	}
+	fmt.Println("STAGE sbi-listener")
+	if err := verifapi.RunSBIServer(); err != nil {
+		fmt.Println("CHILD: SBI server error (not a crash):", err)
+	}
 	time.Sleep(400 * time.Millisecond) // the listeners are started in goroutines
 	fmt.Println("STAGE charging-request")
 	now := time.Now()
@@ -335,3 +339,34 @@ func child(file string) int {
 }
 
 func TestC20Configs(t *testing.T) { h.Run(t, "C20", "configs", genC20, judgeC20) }
+
+// Every single-section edit, systematically: each section or field deleted, nulled or emptied on its own.
+func TestC20SingleEdits(t *testing.T) {
+	r := h.NewRecorder("C20", "single")
+	shard, _ := strconv.Atoi(os.Getenv("VERIF_SHARD"))
+	nsh, _ := strconv.Atoi(os.Getenv("VERIF_NSHARDS"))
+	if nsh < 1 {
+		nsh = 1
+	}
+	h.Enum(t, r, func(yield func(C20Case) bool) {
+		i := 0
+		for _, p := range sections {
+			for _, op := range []string{"drop", "null", "empty"} {
+				i++
+				if i%nsh != shard {
+					continue
+				}
+				if !yield(C20Case{Edits: []Edit{{Path: p, Op: op}}}) {
+					return
+				}
+			}
+		}
+		for j, l := range []string{"nchf-convergedcharging,nchf-offlineonlycharging,nchf-convergedcharging", "nchf-convergedcharging,nchf-convergedcharging", "nchf-spendinglimitcontrol,nchf-offlineonlycharging,nchf-convergedcharging", "nchf-offlineonlycharging"} {
+			if j%nsh == shard {
+				if !yield(C20Case{Edits: []Edit{{Path: "configuration.serviceNameList", Op: "list", Val: l}}}) {
+					return
+				}
+			}
+		}
+	}, judgeC20, true)
+}
